@@ -98,6 +98,7 @@ package drpcmetadata
 //@   props C11 C13
 //@   loop 1 invariant [buf] arr(buf) == arr(buf0) || len(buf) == 0
 //@   loop 1 decreases len(buf)
+//@   loop 1 step [C11.next-entry] athead(entOK(buf)) && sameSlice(buf, athead(fldRest(buf)))
 //@   ensures [total] result1 != nil ==> result0 == nil
 //@   site mapstore:out assert [C11.stores-decoded-pair] bytesEq(arg0, key) && bytesEq(arg1, value) && ok && err == nil
 //@   ghost after:readEntry rk = ret1
@@ -132,12 +133,22 @@ package drpcmetadata
 //@   ensures [value]    forall i int :: 0 <= i && i < lv ==> fldData(fldRest(fldData(r[b:])))[i] == value[i]
 //@   ensures [consumed] len(fldRest(r[b:])) == 0
 
+// AddPairs / Encode range over the map: every iteration handles a pair that is in the map and was
+// not handled before, and the loop ends only when every pair was handled (the executor's meaning of
+// range over a map); the body passes exactly that pair on.
 //@ func AddPairs
 //@   props C11
-//@   trusted "ranges over a map (outside the interpreted subset): assumed to add exactly the given pairs to the context"
+//@   requires ctx != nil
+//@   modifies *
+//@   loop 1 invariant [m] metadata == metadata0 && ctx != nil
+//@   site Add assert [C11.pair-from-map] haskey(metadata, arg1) && arg2 == metadata[arg1] && arg0 != nil
+//@   ensures [ctx] result != nil
 //@ func Encode
 //@   props C11
-//@   trusted "ranges over a map (outside the interpreted subset): assumed to call appendEntry once per pair"
+//@   modifies *
+//@   loop 1 invariant [m] metadata == metadata0
+//@   site appendEntry assert [C11.pair-from-map] haskey(metadata, arg1) && arg2 == metadata[arg1]
+//@   ensures [ok] result1 == nil
 
 //@ func Get
 //@   props C11
